@@ -79,8 +79,15 @@ Definition process_makefile (cwd wd : bytes) (ign : bool) (data : bytes) : list 
   let evs := md_parse ign data in
   (map (glue_path cwd wd) (md_deps evs), negb (md_has_error evs)).
 
-(* dependency-info inputs are used verbatim (no resolution against the working directory) *)
-Definition process_depinfo (data : bytes) : list bytes * bool :=
+(* dependency-info inputs are resolved like Makefile-style words: DepsActions::actOnInput performs the same
+   statements as actOnRuleDependency (since /repo commit ba34c0a) *)
+Definition process_depinfo (cwd wd : bytes) (data : bytes) : list bytes * bool :=
+  let evs := di_parse data in
+  (map (glue_path cwd wd) (di_inputs evs), negb (di_has_error evs)).
+
+(* the glue as it was BEFORE ba34c0a: the inputs were used verbatim as node keys (no resolution against the
+   working directory); kept with its refutation witness (DepsGlueProofs.depinfo_v0_relative_resolution_refuted) *)
+Definition process_depinfo_v0 (data : bytes) : list bytes * bool :=
   let evs := di_parse data in
   (di_inputs evs, negb (di_has_error evs)).
 
@@ -89,7 +96,7 @@ Definition process_one (style : deps_style) (cwd wd data : bytes) : list bytes *
   | StyleUnused => ([], false)
   | StyleMakefile => process_makefile cwd wd false data
   | StyleMakefileIgnoringSubsequent => process_makefile cwd wd true data
-  | StyleDependencyInfo => process_depinfo data
+  | StyleDependencyInfo => process_depinfo cwd wd data
   end.
 
 (* the loop over depsPaths; a file that cannot be read is None; the first failing file ends the loop *)
